@@ -314,7 +314,10 @@ def get_lossy_partially_distinguishable_detection_probabilities(
             connector=connector,
         )
     else:
-        G = particle_overlap
+        # NOTE: The amplitude of photon `i` is paired with the conjugate amplitude of
+        # photon `j` below, which comes with the overlap <phi_j|phi_i> = conj(G[i, j])
+        # for the documented convention G[i, j] = <phi_i|phi_j>.
+        G = np.conj(particle_overlap)
 
         input_norm = _general_input_norm(
             input_occupation=input_occupation,
